@@ -25,24 +25,32 @@
 (* (DLoop: rec = 0) and is refilled by the next recv.                                                                         *)
 (* Variant: "none" = the code as it is; the others are deliberately broken witnesses (each must violate a property).          *)
 EXTENDS Naturals, Integers, Sequences, FiniteSets, TLC
-CONSTANTS Workers, External, Mode, RingCap, PoolCap, NH, Subs, Prog, Bodies, Variant
-\* Mode \in {"inline", "thread", "pooled"};  Prog[s] = sequence of [op |-> "call"|"async", t |-> task id >= 1, ctx |-> "photon"|"std"]
+CONSTANTS Workers, External, RingCap, PoolCap, NH, Subs, Bodies, Cfgs
+\* One TLC run covers a set of configurations: Cfgs is a set of records made with MkCfg(mode, variant, prog); Init picks one (cf)
+\* and it never changes.   mode \in {"inline", "thread", "pooled"};
+\* prog[s] = sequence of [op |-> "call"|"async", t |-> task id >= 1, ctx |-> "photon"|"std"|"none"]
 \* NH helper-thread slots per worker (>= number of tasks);  Bodies \subseteq {"plain", "yield", "sleep"}
-Ops == UNION {{Prog[s][i] : i \in 1..Len(Prog[s])} : s \in Subs}
-Tasks == {o.t : o \in Ops}
-OpOf(t) == CHOOSE o \in Ops : o.t = t
-IsCall(t) == OpOf(t).op = "call"
+OpsOf(p) == UNION {{p[s][i] : i \in 1..Len(p[s])} : s \in DOMAIN p}
+MkCfg(m, v, p) == [mode |-> m, variant |-> v, prog |-> p,
+                   ops |-> [t \in {o.t : o \in OpsOf(p)} |-> CHOOSE o \in OpsOf(p) : o.t = t]]
 TH == 0..NH                         \* 0 = the worker's main_loop thread (dispatcher), 1..NH helper threads
 Owned == Workers \ External
-VARIABLES ring, ringAlive, vcpus, spc, aw, returned, accepted, runs, finished, deleted,
+VARIABLES cf, ring, ringAlive, vcpus, spc, aw, returned, accepted, runs, finished, deleted,
           pc, rq, slp, tk, arg, rec, running, got, exited, pref, dpc, dn, bad
-vars == <<ring, ringAlive, vcpus, spc, aw, returned, accepted, runs, finished, deleted,
+vars == <<cf, ring, ringAlive, vcpus, spc, aw, returned, accepted, runs, finished, deleted,
           pc, rq, slp, tk, arg, rec, running, got, exited, pref, dpc, dn, bad>>
 subv == <<spc, aw, returned, accepted>>
 ghostv == <<runs, finished, deleted>>
 dtorv == <<dpc, dn>>
+Mode == cf.mode
+Variant == cf.variant
+Prog == cf.prog
+Tasks == DOMAIN cf.ops
+OpOf(t) == cf.ops[t]
+IsCall(t) == cf.ops[t].op = "call"
 
-Init == /\ ring = <<>> /\ ringAlive = TRUE /\ vcpus = Workers
+Init == /\ cf \in Cfgs /\ TLCSet(2, {}) /\ TLCSet(3, {})
+        /\ ring = <<>> /\ ringAlive = TRUE /\ vcpus = Workers
         /\ spc = [s \in Subs |-> [i |-> 1, ph |-> "enq"]]
         /\ aw = [t \in Tasks |-> 0] /\ returned = [t \in Tasks |-> FALSE] /\ accepted = {}
         /\ runs = [t \in Tasks |-> 0] /\ finished = [t \in Tasks |-> FALSE] /\ deleted = [t \in Tasks |-> 0]
@@ -141,7 +149,7 @@ HPost(w, x) ==
           /\ bad' = bad \cup (IF returned[t] THEN {"awaiter used after call() returned"} ELSE {})
                         \cup (IF OpOf(t).ctx = "std" /\ ~EarlyResume(t) /\ (aw[t] >= 1 \/ returned[t]) THEN {"promise satisfied twice"} ELSE {})
           /\ UNCHANGED deleted
-     ELSE /\ deleted' = [deleted EXCEPT ![t] = @ + 1]
+     ELSE /\ deleted' = IF Variant = "no_delete" THEN deleted ELSE [deleted EXCEPT ![t] = @ + 1]
           /\ bad' = bad \cup (IF deleted[t] > 0 THEN {"async task object deleted twice"} ELSE {})
           /\ UNCHANGED aw
   /\ Goto(w, x, "dec")
@@ -225,18 +233,20 @@ DExit(w) ==
   /\ Goto(w, 0, "gone") /\ exited' = [exited EXCEPT ![w] = TRUE]
   /\ UNCHANGED <<ring, ringAlive, vcpus, subv, ghostv, rq, slp, tk, arg, rec, running, got, pref, dtorv, bad>>
 
-Finished == dpc = "done" /\ UNCHANGED vars
+Finished == dpc = "done" /\ UNCHANGED <<ring, ringAlive, vcpus, subv, ghostv, pc, rq, slp, tk, arg, rec, running, got, exited, pref, dtorv, bad>>
 WorkerNext(w) == \/ DRecv(w) \/ DRecvYield(w) \/ DRecvSleep(w) \/ DSpawn(w) \/ DLoop(w) \/ DDrainYield(w) \/ DDereg(w) \/ DExit(w)
                  \/ \E x \in TH : \/ HCopy(w, x) \/ HLateYield(w, x) \/ HBodyEnd(w, x) \/ HPost(w, x) \/ HDec(w, x) \/ HDie(w, x)
                                   \/ Wake(w, x) \/ \E k \in Bodies : HBody(w, x, k)
-Next == \/ \E s \in Subs : SubEnqueue(s) \/ SubSuspend(s)
-        \/ DtorBegin \/ DtorSend \/ DtorJoin \/ DtorDestroy
-        \/ \E w \in Workers : WorkerNext(w)
-        \/ Finished
+Next == /\ \/ \E s \in Subs : SubEnqueue(s) \/ SubSuspend(s)
+           \/ DtorBegin \/ DtorSend \/ DtorJoin \/ DtorDestroy
+           \/ \E w \in Workers : WorkerNext(w)
+           \/ Finished
+        /\ UNCHANGED cf
 Spec == Init /\ [][Next]_vars
-FairSpec == /\ Spec /\ \A s \in Subs : WF_vars(SubEnqueue(s) \/ SubSuspend(s))
-            /\ WF_vars(DtorBegin \/ DtorSend \/ DtorJoin \/ DtorDestroy)
-            /\ \A w \in Workers : WF_vars(WorkerNext(w))
+K(A) == A /\ UNCHANGED cf
+FairSpec == /\ Spec /\ \A s \in Subs : WF_vars(K(SubEnqueue(s) \/ SubSuspend(s)))
+            /\ WF_vars(K(DtorBegin \/ DtorSend \/ DtorJoin \/ DtorDestroy))
+            /\ \A w \in Workers : WF_vars(K(WorkerNext(w))) /\ \A x \in TH : WF_vars(K(Wake(w, x)))
 
 (* ---------------- properties ---------------- *)
 NoFault == bad = {}
@@ -251,14 +261,43 @@ DestructorWaits == ~ringAlive => /\ \A t \in accepted : finished[t] /\ (IsCall(t
                                  /\ \A w \in Workers : pc[w][0] \in {"fini", "gone"} /\ running[w] = 0
                                  /\ \A w \in Owned : exited[w]
 EveryWorkerGetsOneMarker == /\ \A w \in Workers : got[w] <= 1 /\ (pc[w][0] \in {"drain", "fini", "gone"} <=> got[w] = 1)
-                            /\ (dpc \in {"dereg", "done"} => \A w \in Workers : got[w] = 1)
+                            /\ (dpc = "done" => \A w \in Workers : got[w] = 1)
 RingBounded == Len(ring) <= RingCap
 RunningCounts == \A w \in Workers : running[w] = Cardinality({x \in TH : pc[w][x] \in {"new", "new2", "run", "run2", "post", "dec"}})
                                                  + (IF pc[w][0] \in {"spawn"} THEN 1 ELSE 0)
+\* deadlock freedom.  Receivers poll (timed waits), so a stuck system still has polling steps; "at rest" = nothing but polling is
+\* possible: every submitter is finished or blocked, the destructor cannot move, every worker has left or polls an empty ring and
+\* has no helper thread with work.  Then the destructor must have finished.
+AtRest == /\ \A s \in Subs : SDone(s) \/ (spc[s].ph = "enq" /\ Len(ring) >= RingCap) \/ (spc[s].ph = "susp" /\ aw[SOp(s).t] = 0)
+          /\ ~ENABLED (DtorBegin \/ DtorSend \/ DtorJoin \/ DtorDestroy)
+          /\ \A w \in Workers : /\ \A h \in 1..NH : pc[w][h] \in {"free", "idle"}
+                                 /\ (pc[w][0] = "gone" \/ (pc[w][0] = "recv" /\ ring = <<>>) \/ (pc[w][0] = "drain" /\ ~Drained(w)))
+NoStuck == AtRest => dpc = "done"
 Terminates == <>(dpc = "done")
-\* reachability witnesses (their negations are checked in the *_reach configurations and must be violated)
-NeverFullRing == ~(Len(ring) = RingCap /\ \E s \in Subs : ~SDone(s) /\ spc[s].ph = "enq")
-NeverDtorWhileRunning == ~(dpc = "markers" /\ \E w \in Workers : running[w] > 0)
-NeverTwoHelpers == \A w \in Workers : Cardinality({h \in 1..NH : pc[w][h] \in {"run", "run2", "post"}}) < 2
-NeverPoolOverflow == \A w \in Workers, h \in 1..NH : pc[w][h] # "dying"
+(* ---------------- anti-vacuity, recorded in TLC registers (run with ONE worker), printed by the postcondition ---------------- *)
+\* witness run (Cfgs = deliberately broken variants): which property is violated under which variant.  Used as CONSTRAINT: a state that
+\* violates something is recorded and not explored further.
+PropNames == {"NoFault", "RunsExactlyOnce", "CallReturnsAfterFinish", "AsyncDeletedOnceAfterRun", "RecordCopiedBeforeReuse",
+              "DestructorWaits", "EveryWorkerGetsOneMarker", "NoStuck", "RunningCounts"}
+Holds(n) == CASE n = "NoFault" -> NoFault [] n = "RunsExactlyOnce" -> RunsExactlyOnce
+              [] n = "CallReturnsAfterFinish" -> CallReturnsAfterFinish [] n = "AsyncDeletedOnceAfterRun" -> AsyncDeletedOnceAfterRun
+              [] n = "RecordCopiedBeforeReuse" -> RecordCopiedBeforeReuse [] n = "DestructorWaits" -> DestructorWaits
+              [] n = "EveryWorkerGetsOneMarker" -> EveryWorkerGetsOneMarker [] n = "NoStuck" -> NoStuck
+              [] n = "RunningCounts" -> RunningCounts
+WitnessRecord == LET v == {n \in PropNames : ~Holds(n)} IN
+                 IF v = {} THEN TRUE ELSE TLCSet(2, TLCGet(2) \cup {<<cf.variant, cf.mode, n>> : n \in v}) /\ FALSE
+WitnessPost == PrintT(<<"WITNESS", TLCGet(2)>>)
+\* reachability in the runs of the code as it is: the situations the property is about do occur in the model
+Reached == {r \in {"full_ring", "dtor_while_running", "two_helpers", "pool_overflow", "helper_pending_other_running", "sleeping_at_dtor",
+                   "marker_blocked_by_full_ring", "pooled_thread_reused"} :
+            CASE r = "full_ring" -> Len(ring) = RingCap /\ \E s \in Subs : ~SDone(s) /\ spc[s].ph = "enq"
+              [] r = "dtor_while_running" -> dpc = "markers" /\ \E w \in Workers : running[w] > 0
+              [] r = "two_helpers" -> \E w \in Workers : Cardinality({h \in 1..NH : pc[w][h] \in {"run", "run2", "post"}}) >= 2
+              [] r = "pool_overflow" -> \E w \in Workers, h \in 1..NH : pc[w][h] = "dying"
+              [] r = "helper_pending_other_running" -> \E w \in Workers, h, k \in 1..NH : pc[w][h] = "new" /\ pc[w][k] \in {"run", "run2"}
+              [] r = "sleeping_at_dtor" -> dpc \in {"markers", "join"} /\ \E w \in Workers : \E x \in slp[w] : pc[w][x] = "run2"
+              [] r = "marker_blocked_by_full_ring" -> dpc = "markers" /\ Len(ring) = RingCap
+              [] r = "pooled_thread_reused" -> \E w \in Workers : pc[w][0] = "spawn" /\ Idle(w) # {}}
+ReachRecord == TLCSet(3, TLCGet(3) \cup {<<cf.mode, r>> : r \in Reached})
+ReachPost == PrintT(<<"REACHED", TLCGet(3)>>)
 ====
